@@ -25,6 +25,9 @@ type Comp struct {
 type Val struct {
 	T types.Type
 	C []Term
+	// IA: the value is an interior pointer (address of a slice element / field) held by a local; specifications
+	// read through it with p.f
+	IA *Addr
 }
 
 type OOS struct{ msg string } // out-of-subset
